@@ -112,7 +112,7 @@ func parseContracts(path string) (*Contracts, error) {
 		}
 		fields := strings.Fields(body)
 		switch fields[0] {
-		case "func", "type", "lemma", "lockorder", "axioms":
+		case "func", "type", "lemma", "lockorder", "axioms", "config":
 			cur = &Block{Kind: fields[0], Line: ln}
 			rest := strings.TrimSpace(body[len(fields[0]):])
 			if fields[0] == "type" {
